@@ -327,3 +327,90 @@ def _operations_succeed(S, op, tmpl):
     if out.ok:
         b = out.value
         S.ensure("valid.module_area_and_centre_of_mass_kept", sand(seq(b.area("M0"), area0), seq(b.center("M0").x, cx0), seq(b.center("M0").y, cy0)))
+
+
+# ---- bounded float leg: the operations in doubles on decimal (non-representable) coordinates -----------------------------------
+
+@contract(P, kind="enum", functions=[A + "refine", A + "uniform_refinement_depth", A + "griddify", A + "__init__", "frame.geometry.geometry.Rectangle.set_epsilon"],
+          scope="bounded: random allocations on decimal lattices (0.1 / 0.35 / 1.7 steps), compositions of up to 3 operations, in doubles, fresh tolerances",
+          params=[dict(chunk=i) for i in range(8)])
+def float_leg(chunk, replay=None):
+    import os
+    import random
+    tier = os.environ.get("VERIF_TIER", "quick")
+    rng = random.Random(4242 + chunk + 97 * int(os.environ.get("VERIF_SEED", "0") or 0))
+    n_cases = 60 if tier != "thorough" else 1500
+    failures, evals, nontriv, samples = [], 0, 0, []
+    for it in range(n_cases):
+        if replay:
+            spec, ops = replay["spec"], replay["ops"]
+        else:
+            step = rng.choice([0.1, 0.35, 0.7, 1.7, 3.3, 1.0, 0.05])
+            nx, ny = rng.randint(1, 3), rng.randint(1, 3)
+            xs = [round(i * step * rng.choice([1, 2]), 10) for i in range(nx + 1)]
+            xs = sorted(set(xs)) if len(set(xs)) == nx + 1 else [i * step for i in range(nx + 1)]
+            ys = [j * step * 1.5 for j in range(ny + 1)]
+            spec = []
+            for i in range(nx):
+                for j in range(ny):
+                    if rng.random() < 0.8:
+                        al = {}
+                        for m in ("M0", "M1", "M2"):
+                            if rng.random() < 0.5:
+                                al[m] = rng.choice([0.0, 0.1, 0.3, 0.5, 1 / 3, 0.9])
+                        spec.append([[(xs[i] + xs[i + 1]) / 2, (ys[j] + ys[j + 1]) / 2, xs[i + 1] - xs[i], ys[j + 1] - ys[j]], al, rng.choice([0, 0, 1, 2])])
+            ops = [rng.choice(["refine:0.2:1", "refine:0.5:1", "refine:1.0:1", "refine:0.95:2", "refine:0.4:3", "uniform", "griddify"]) for _ in range(rng.randint(1, 3))]
+        if not spec:
+            continue
+        Rectangle.undefine_epsilon()
+        try:
+            a = Allocation([[list(r), dict(al), d] if d else [list(r), dict(al)] for r, al, d in spec])
+        except (AssertionError, ZeroDivisionError):
+            continue        # not a valid allocation (e.g. a module with zero total area): outside the property
+        fixed_idx = rng.randrange(len(spec)) if (rng.random() < 0.3 and not replay) else (replay or {}).get("fixed_idx")
+        if fixed_idx is not None:
+            a.allocations[fixed_idx].rect.fixed = True
+        evals += 1
+        mods = sorted({m for _, al, _ in spec for m in al})
+        area0 = {m: a.area(m) for m in mods}
+        c0 = {m: (a.center(m).x, a.center(m).y) for m in mods}
+        tot0 = sum(x.rect.area for x in a.allocations)
+        fixed_rects = [x.rect for x in a.allocations if x.rect.fixed]
+        cur = a
+        try:
+            for op in ops:
+                if op.startswith("refine"):
+                    _, t, lv = op.split(":")
+                    cur = cur.refine(float(t), int(lv))
+                elif op == "uniform":
+                    cur = cur.uniform_refinement_depth()
+                else:
+                    cur = cur.griddify()
+        except Exception as e:  # noqa
+            failures.append(dict(clause="float.operation_succeeds_on_a_valid_allocation", spec=spec, ops=ops, fixed_idx=fixed_idx, observed=f"{type(e).__name__}: {str(e)[:150]}"))
+            continue
+        nontriv += 1 if cur.num_rectangles > a.num_rectangles else 0
+        scale = max(tot0, 1e-300)
+        bad = None
+        if abs(sum(x.rect.area for x in cur.allocations) - tot0) > 1e-9 * scale:
+            bad = "float.total_area_conserved"
+        for m in mods:
+            if abs(cur.area(m) - area0[m]) > 1e-9 * scale:
+                bad = "float.module_area_conserved"
+            elif abs(cur.center(m).x - c0[m][0]) > 1e-7 * (abs(c0[m][0]) + 1) or abs(cur.center(m).y - c0[m][1]) > 1e-7 * (abs(c0[m][1]) + 1):
+                bad = "float.module_centre_of_mass_conserved"
+        for fr in fixed_rects:
+            if not any(x.rect.fixed and x.rect.center == fr.center and x.rect.shape == fr.shape for x in cur.allocations):
+                bad = "float.fixed_cells_never_cut"
+        if bad:
+            failures.append(dict(clause=bad, spec=spec, ops=ops, fixed_idx=fixed_idx))
+        if len(samples) < 2:
+            samples.append(dict(cells=len(spec), ops=ops, result_cells=cur.num_rectangles))
+        if len(failures) >= 5 or replay:
+            break
+    Rectangle.undefine_epsilon()
+    return dict(evaluations=evals, distinct_nontrivial=nontriv, exhaustive=False, failures=failures[:5],
+                rule="random cell layouts on lattices with decimal steps (0.05 .. 3.3), ratios from {0, 0.1, 0.3, 1/3, 0.5, 0.9}, depths, an optional "
+                     "fixed cell; tolerances undefined at the start (as in a fresh process); 1-3 of refine(t, levels) / uniform / griddify; "
+                     "no exception, total area / module area (1e-9) / centre (1e-7) conserved, fixed cells uncut; non-trivial = runs that cut at least one cell",
+                samples=samples or [1], bound=f"{n_cases} cases per chunk")
